@@ -78,6 +78,21 @@ class I:
         raise NotImplementedError('nonlinear integer arithmetic')
     __rmul__ = __mul__
 
+    def _divmod(self, k):
+        """(self // k, self % k) for a positive integer constant k: fresh q, r with self = k q + r,
+        0 <= r < k (the definition; added to the current path)"""
+        if not isinstance(k, int) or isinstance(k, bool) or k <= 0:
+            raise NotImplementedError('symbolic integer divided by %r' % (k,))
+        ex = paths.CUR
+        if ex is None or not getattr(ex, 'active', False):
+            raise NotImplementedError('integer division of a symbolic index outside a path executor')
+        q, r = ex.fresh('q', 'Int'), ex.fresh('r', 'Int')
+        ex.add(z3.And(self.z() == k * q + r, r >= 0, r < k))
+        return I({str(q): 1}, 0), I({str(r): 1}, 0)
+
+    def __mod__(self, k): return self._divmod(k)[1]
+    def __floordiv__(self, k): return self._divmod(k)[0]
+
     def _cmp(self, o, op):
         o = asI(o)
         if o is NotImplemented:
@@ -377,6 +392,26 @@ class LocalArr:
         return self.shape[0]
 
 
+# window mode (C02 "call-position independence"): the rows of a chunk are processed as if the SAME
+# kernel call had already processed `w` rows before them (w >= 0 symbolic): `range` in the kernel's
+# namespace yields w, w + 1, ..., the increments arrays are addressed relative to w and the offset
+# is shifted by -w, so that the buffer rows are the same. Anything the kernel derives from the
+# call-local index other than through `j = i + offset` then depends on w and shows as a term
+# difference or as a branch.
+WINDOW = [False]
+WINDOW_ARMED = [False]          # only the FIRST range() of a kernel call (its loop over the rows) is shifted
+WINDOW_BASE = 'w_call'
+
+
+def window_range(n, *more):
+    if more or not WINDOW[0] or not WINDOW_ARMED[0]:
+        return range(n, *more)
+    WINDOW_ARMED[0] = False
+    if isinstance(n, I):
+        raise TypeError('symbolic loop bound in window mode')
+    return [I.var(WINDOW_BASE) + k for k in range(n)]
+
+
 class ChunkArr:
     """column group of an increments chunk as a contiguous array: element i is a token that
     names the original increments row, so that sub-chunks share tokens with the whole"""
@@ -390,7 +425,11 @@ class ChunkArr:
 
     def __getitem__(self, i):
         if isinstance(i, I):
-            raise TypeError('symbolic chunk index')
+            # window mode: the call-local index is WINDOW_BASE + k
+            k = idiff_const(i, I.var(WINDOW_BASE)) if WINDOW[0] else None
+            if k is None:
+                raise TypeError('symbolic chunk index')
+            i = k
         if not 0 <= i < len(self.chunk.ids):
             VIOL.add('chunk_oob', 'increments array index %d outside chunk of length %d' % (i, len(self.chunk.ids)))
             raise Abort('OOB')
@@ -714,10 +753,19 @@ class IntegHarness:
         SD.transform = _NS(mat_to_rph=lambda mats: [Tok('rph', m.key()) for m in mats],
                            mat_from_rph=lambda r: Tok('mat_from_rph', _key(r)))
         self.kernel = SD._pvf_orig['integrate']
-        SD.integrate = self.kernel
+        KN.range = window_range
         if patch:
             patch(self)
-            SD.integrate = self.kernel
+
+        def kernel_entry(dt, lla, vel, mat, theta, dv, offset, wa, _h=self):
+            if WINDOW[0]:
+                offset = offset - I.var(WINDOW_BASE)
+                WINDOW_ARMED[0] = True
+            try:
+                return _h.kernel(dt, lla, vel, mat, theta, dv, offset, wa)
+            finally:
+                WINDOW_ARMED[0] = False
+        SD.integrate = kernel_entry
 
     @staticmethod
     def _rotvec(rv, mat):
@@ -770,8 +818,12 @@ class IntegHarness:
             for c, v in zip(buf.cols(), cs):
                 buf.cells[(ikey(0), c)] = _Raw(v)
         one = chunk.sub(i, i + 1)
-        self.SD._pvf_orig['integrate'](ChunkArr(one, 'dt'), lla, vel, mat, ChunkArr(one, 'theta'), ChunkArr(one, 'dv'),
-                                       0, with_altitude)
+        w_saved, WINDOW[0] = WINDOW[0], False       # the reference is a fresh one-row call (call-local index 0)
+        try:
+            self.SD._pvf_orig['integrate'](ChunkArr(one, 'dt'), lla, vel, mat, ChunkArr(one, 'theta'), ChunkArr(one, 'dv'),
+                                           0, with_altitude)
+        finally:
+            WINDOW[0] = w_saved
         new = tuple(b.row_cells(1) for b in (lla, vel, mat))
         row = mk('hrow', mk('row', *new[0]), mk('row', *new[1]), mk('rph', mk('row', *new[2])))
         return new, row
